@@ -407,9 +407,19 @@ macro_rules! sinterp {
                             let mut ev = sbase("from_utf8_lossy");
                             ev.inb = b.iter().map(|&x| x as i64).collect();
                             self.call(ev, |s, ev| {
-                                let t = slossy!($modname, s.bump, &b);
-                                ev.other = cps(&t);
-                                ev.otherok = 1;
+                                let t: Vec<u8> = slossy!($modname, s.bump, &b);
+                                match std::str::from_utf8(&t) {
+                                    Ok(t) => {
+                                        ev.other = cps(t);
+                                        ev.otherok = 1;
+                                    }
+                                    Err(_) => {
+                                        // the decoder produced a String that is not UTF-8
+                                        ev.otherok = 0;
+                                        ev.utf8 = 0;
+                                        ev.bytes = t.iter().map(|&x| x as i64).collect();
+                                    }
+                                }
                             });
                         }
                         SOp::FromUtf16 { u } => {
@@ -473,7 +483,7 @@ macro_rules! sfromutf8 {
         let mut v = bumpalo::collections::Vec::new_in($bump);
         v.extend_from_slice_copy($b);
         match bumpalo::collections::String::from_utf8(v) {
-            Ok(s) => Ok(s.as_str().to_string()),
+            Ok(s) => Ok(std::string::String::from_utf8_lossy(s.as_bytes()).into_owned()),
             Err(e) => {
                 let u = e.utf8_error();
                 let same = e.as_bytes() == &$b[..];
@@ -493,11 +503,11 @@ macro_rules! sfromutf8 {
     }};
 }
 macro_rules! slossy {
-    (bumps, $bump:expr, $b:expr) => { bumpalo::collections::String::from_utf8_lossy_in($b, $bump).as_str().to_string() };
-    (stds, $bump:expr, $b:expr) => { std::string::String::from_utf8_lossy($b).into_owned() };
+    (bumps, $bump:expr, $b:expr) => { bumpalo::collections::String::from_utf8_lossy_in($b, $bump).as_bytes().to_vec() };
+    (stds, $bump:expr, $b:expr) => { std::string::String::from_utf8_lossy($b).into_owned().into_bytes() };
 }
 macro_rules! sutf16 {
-    (bumps, $bump:expr, $u:expr) => { bumpalo::collections::String::from_utf16_in($u, $bump).map(|s| s.as_str().to_string()).map_err(|_| ()) };
+    (bumps, $bump:expr, $u:expr) => { bumpalo::collections::String::from_utf16_in($u, $bump).map(|s| std::string::String::from_utf8_lossy(s.as_bytes()).into_owned()).map_err(|_| ()) };
     (stds, $bump:expr, $u:expr) => { std::string::String::from_utf16($u).map_err(|_| ()) };
 }
 
